@@ -134,6 +134,8 @@ def make_gates(seed=0, idle=True, names=None, reg_gates=False):
     if reg_gates:
         for name, kinds in REG_KINDS.items():
             g[name] = GateDefinition(name, [Parameter(f"a{i}", PTYPE[k]) for i, k in enumerate(kinds)])
+        # a BUSY gate (prepare/measure style: occupies every qubit) that has a qubit parameter
+        g["BSY1"] = BusyGateDefinition("BSY1", [Parameter("a0", ParamType.QUBIT)])
     if idle:
         g = add_idle_gates(g)
     return g
